@@ -260,6 +260,19 @@ def run(ctx, rule, qual):
                    bad_detail=f"`{src(st)}`: the threshold `{src(st.value.comparators[0])}` = {r!r} is "
                               f"{'not homogeneous of degree 2 in the input' if kind is None else kind}; {wit}: a tensor with a non-zero deviator "
                               f"(-J2 < 0) can fail the test, or the test depends on the scale/sign of the input")
+        # magnitude: when the guard treats the tensor as spherical the deviator |D|^2 = 2 J2 <= 2 |threshold| is discarded; for an input of
+        # unit size (eigen_sym33_unit rescales to max-norm 1) that is a relative reconstruction error of at most sqrt(2 k), k = |threshold(I)|
+        if kind == "nsd":
+            try:
+                k_ = abs(A0.eval(r, {a_: Fraction(1 if a_.endswith("0, 0]") or a_.endswith("1, 1]") or a_.endswith("2, 2]") else 0) for a_ in inputs}))
+            except (KeyError, ZeroDivisionError):
+                k_ = None
+            if k_ is not None:
+                bound = (2.0 * float(k_)) ** 0.5
+                ctx.decide(rule, bound <= 1e-12, nu, st, construct=f"guard:{_ordinal(guards, nm)}:discarded-deviator-below-accuracy",
+                           detail=f"a deviator is discarded only below {bound:.2g} of the tensor's size (<= 1e-12)",
+                           bad_detail=f"`{src(st)}`: with the threshold {r!r} every tensor whose deviator is below {bound:.2g} of its size is returned with three "
+                                      f"equal eigenvalues: nearly repeated eigenvalues are not resolved and the decomposition does not reconstruct the tensor to 1e-12")
     choose = {g[0] for g in guards}
 
     # ---- second pass under "deviator non-zero"
